@@ -62,6 +62,28 @@ def machine_spec(draw):
     return {"ids": ids, "mems": mems}
 
 
+@st.composite
+def cell_machine(draw):
+    """a state that holds one or two narrow / wide memory cells at neighbouring constant addresses (and no register)"""
+    mems, used = [], set()
+    for _ in range(draw(st.integers(1, 2))):
+        off = draw(st.integers(0, 5))
+        if off in used:
+            continue
+        used.add(off)
+        w = draw(st.sampled_from([8, 8, 16, 32]))
+        mems.append([["int", 32, 0x1000 + off], w, draw(exprgen.const(w))])
+    return {"ids": {}, "mems": mems}
+
+
+def memread():
+    return st.tuples(st.integers(0, 4), st.sampled_from([8, 16, 32, 32])).map(lambda t: ["mem", ["int", 32, 0x1000 + t[0]], t[1], None])
+
+
+SEGMEM = ["64a100000000", "648b03", "268b01", "65ff30", "2e8b4d08", "368b0424", "64890d10000000", "3e8b00", "26a5", "6466a31000"]
+SEGSETS = [[], [4], [0], [4, 5], [0, 1, 2, 3, 4, 5]]
+
+
 def probe_strategy(bytes_pool, lines_pool):
     b = st.sampled_from(bytes_pool)
     fams = families(bytes_pool)
@@ -84,7 +106,8 @@ def probe_strategy(bytes_pool, lines_pool):
         reg_expr().map(lambda s: {"k": "simp", "s": s}),
         exprgen.any_expr(2).map(lambda s: {"k": "simp", "s": s}),
         st.tuples(machine_spec(), reg_expr()).map(lambda t: {"k": "eval", "m": t[0], "s": t[1]}),
-        st.tuples(machine_spec(), reg_expr()).map(lambda t: {"k": "eval", "m": t[0], "s": t[1]}),
+        st.tuples(cell_machine(), memread()).map(lambda t: {"k": "eval", "m": t[0], "s": t[1]}),
+        st.tuples(st.sampled_from(SEGMEM), st.sampled_from(SEGSETS), st.sampled_from(SEGSETS)).map(lambda t: {"k": "relift", "b": t[0], "first": t[1], "second": t[2]}),
         st.lists(b, min_size=1, max_size=4).map(lambda l: {"k": "emul", "b": l}),
     )
 
